@@ -218,6 +218,7 @@ pub fn root_case(root: &Root, script: Vec<Vec<f64>>) -> PlanCase {
                 targets: vec![a.states[2].clone()],
                 radius: a.goal_radius,
                 rng_sampler: false,
+                half: false,
             },
             extra_starts: vec![],
             no_start: false,
